@@ -30,7 +30,7 @@ CLAIM = {
          "shapes equal the Fabric API table; "
          "(R13.3) each of the 26 ClassFile fields (and the explicit Field/Method fields of the member merge) is built from the same-named "
          "field of client and/or server and nothing else, interfaces/fields/methods use both sides in (client, server) order, members are "
-         "keyed by (name, descriptor), one-sided members and interfaces get the annotation of their own side.",
+         "keyed by (name, descriptor), one-sided members and interfaces get the annotation of their own side. merge_slice has no shortcut exit and its per-key decision is reached unconditionally.",
  "note": "Not decided: exactly-once union and order preservation as behaviour over all list pairs (only the step structure that the "
          "behaviour needs), termination of the merge loop, content of merged access flags, zip attributes. Known findings: the third "
          "loop of merge_preserve_order tests the wrong list and the first loop advances one cursor only (order not preserved: "
